@@ -229,5 +229,7 @@ pub fn run(a: &Args) -> i32 {
     }
     rep.extra.insert("exhaustive".into(), json!(true));
     rep.extra.insert("model_requests".into(), json!(ctx.model.requests));
+    // the derive / CLI entry point reads files: the type modifiers must be those of THIS schema file (one query file, two schemas)
+    super::wire::path_entry_sequence(&mut rep, &ctx);
     rep.finish()
 }
